@@ -134,7 +134,7 @@ func runApiPlan(t *testing.T, planAny any, ctl Ctl) *Result {
 	bubble(t, res, func() {
 		metrics.Global = metrics.NewMetrics()
 		auth.VerifReset()
-		s := zzsim.New(ctl.Seed, p.Pol)
+		s := zzsim.New(ctl.Seed, racePol(p.Pol))
 		if ctl.Replay != nil {
 			s.SetReplay(ctl.Replay, ctl.Guided)
 		}
